@@ -15,12 +15,18 @@ pub struct Server {
 
 impl Server {
     pub fn start(dir: &Path, schedule: Option<&str>) -> Result<Server, String> {
+        Server::start_with(dir, schedule, None)
+    }
+    /// `chan_cap`: capacity of the bounded channels between the server's processing stages (hook ADLT_VERIF_CHANNEL_CAP)
+    pub fn start_with(dir: &Path, schedule: Option<&str>, chan_cap: Option<usize>) -> Result<Server, String> {
         for attempt in 0..8 {
             let port = portpicker::pick_unused_port().ok_or("no free port")?;
             let stderr_path = dir.join(format!("server_{}_{}.stderr", port, attempt));
+            let stdout_path = dir.join(format!("server_{}_{}.stdout", port, attempt));
             let errf = std::fs::File::create(&stderr_path).map_err(|e| e.to_string())?;
+            let outf = std::fs::File::create(&stdout_path).map_err(|e| e.to_string())?;
             let mut cmd = Command::new(crate::engine::adlt_bin());
-            cmd.args(["remote", "-p", &port.to_string()]).env("TZ", "UTC").env("RAYON_NUM_THREADS", "2").stdin(Stdio::null()).stdout(Stdio::null()).stderr(errf);
+            cmd.args(["remote", "-p", &port.to_string()]).env("TZ", "UTC").env("RAYON_NUM_THREADS", "2").stdin(Stdio::null()).stdout(outf).stderr(errf);
             match schedule {
                 Some(s) => {
                     cmd.env("ADLT_VERIF_PARSE_SCHEDULE", s);
@@ -29,15 +35,25 @@ impl Server {
                     cmd.env_remove("ADLT_VERIF_PARSE_SCHEDULE");
                 }
             }
+            match chan_cap {
+                Some(n) => {
+                    cmd.env("ADLT_VERIF_CHANNEL_CAP", n.to_string());
+                }
+                None => {
+                    cmd.env_remove("ADLT_VERIF_CHANNEL_CAP");
+                }
+            }
             let mut child = cmd.spawn().map_err(|e| format!("cannot spawn {}: {}", crate::engine::adlt_bin().display(), e))?;
-            // wait until it listens
-            let end = Instant::now() + Duration::from_secs(5);
+            // wait until *this* process says that it listens (another worker's server may have got the same port:
+            // a successful connect alone does not tell whose server answered)
+            let end = Instant::now() + Duration::from_secs(10);
             let mut ok = false;
             while Instant::now() < end {
                 if let Ok(Some(_)) = child.try_wait() {
                     break; // exited (port taken?)
                 }
-                if std::net::TcpStream::connect(("127.0.0.1", port)).is_ok() {
+                let said = std::fs::read(&stdout_path).map(|b| String::from_utf8_lossy(&b).contains("remote server listening on")).unwrap_or(false);
+                if said && std::net::TcpStream::connect(("127.0.0.1", port)).is_ok() {
                     ok = true;
                     break;
                 }
